@@ -10,6 +10,8 @@
 
 #include "IO/ProgramOptions.hpp"
 
+#include <limits>
+
 vfps::ProgramOptions::ProgramOptions() :
     _configfile("default.cfg"),
     I_b({3e-3f}),
@@ -402,6 +404,9 @@ void vfps::ProgramOptions::save(std::string fname)
     std::ofstream ofs(fname.c_str());
 
     ofs << "# " << vfps::inovesa_version() << std::endl;
+
+    // write floating point values so that they are read back exactly
+    ofs.precision(std::numeric_limits<double>::max_digits10);
 
     for ( auto it=_vm.begin(); it != _vm.end(); it++ ) {
         // currently, the _compatopts are ignored manually
